@@ -6,3 +6,5 @@ import PK.Properties.C12
 #print axioms PK.C12_tournament_must_show
 #print axioms PK.C12_tournament_shows_all
 #print axioms PK.C12_shown_dominated
+#print axioms PK.kill_fold
+#print axioms PK.C12_lone_not_killed
